@@ -62,7 +62,7 @@ CFG = {
         rule="distinct constrained scenarios: completed runs with >=5 evaluations and >=1 poll, or constructor rejections (infeasible / near-boundary x0)",
     ),
     "C03": dict(
-        profile=dict(name="c03", rare_knobs=0.25, fam_w=[3, 1, 1, 1, 1, 0, 7], budget_kinds=["tiny", "small", "small", "mid", "mid", "large"],
+        profile=dict(name="c03", rare_knobs=0.25, gate_p=0.5, fam_w=[3, 1, 1, 1, 1, 0, 7], budget_kinds=["tiny", "small", "small", "mid", "mid", "large"],
                      knobs=dict(max_iter=0.4, tol_mesh=0.5, complete_poll=0.3, accelerate_mesh=0.4, tol_stall_iters=0.3),
                      noise_w=[5, 1, 2, 2], cons_p=0.3, cons_w=[2, 2, 2, 2, 1, 2, 4], geom_w=[4, 4, 2, 2, 2, 2, 2, 1, 3]),
         n=dict(quick=160, thorough=6000), hang_is_violation=True,
@@ -90,7 +90,7 @@ CFG = {
         rule="distinct scenarios where the final-sampling clause or the noise-detection clause was actually evaluated",
     ),
     "C09": dict(
-        profile=dict(name="c09", rare_knobs=0.3, budget_kinds=["tiny", "tiny", "small", "small", "mid"], budget_min=4, noisy_budget_min=4,
+        profile=dict(name="c09", rare_knobs=0.3, gate_p=0.2, budget_kinds=["tiny", "tiny", "small", "small", "mid"], budget_min=4, noisy_budget_min=4,
                      knobs=dict(max_iter=0.35, cache_size=0.6, n_search=0.6, fun_eval_start=0.4, n_train=0.4,
                                 noise_final_samples=0.7, tol_mesh=0.3, noise_size=0.3),
                      fam_w=[4, 2, 2, 2, 1, 1, 3], cons_p=0.4, cons_w=[2, 2, 3, 2, 1, 3, 2], noise_w=[3, 2, 3, 3]),
@@ -99,7 +99,7 @@ CFG = {
         rule="distinct valid scenarios that were constructed and run to an outcome (completed or crashed)",
     ),
     "C13": dict(
-        profile=dict(name="c13", rare_knobs=0.25, fam_w=[3, 1, 1, 1, 1, 0, 7], knobs=dict(max_iter=0.2, tol_mesh=0.5, complete_poll=0.3, search_size_locked=0.2,
+        profile=dict(name="c13", rare_knobs=0.25, gate_p=0.3, fam_w=[3, 1, 1, 1, 1, 0, 7], knobs=dict(max_iter=0.2, tol_mesh=0.5, complete_poll=0.3, search_size_locked=0.2,
                                                                          accelerate_mesh=0.5, tol_stall_iters=0.3),
                      budget_kinds=["small", "mid", "mid", "large"], noise_w=[5, 1, 2, 2], cons_p=0.2),
         n=dict(quick=160, thorough=6000),
